@@ -120,7 +120,10 @@ CART_CODES = {
 }
 CART_DIRS = {'t0': ['', 'sub/', 'sub/deep/'], 't1': ['', 'sub/'], 't2': [''], 't3': [''], 't4': [''], 't5': [''],
              't6': [''], 't7': [''], 't8': ['', 'sub/'], 't9': [''], 't10': [''], 't11': [''], 't' + GLYPH: ['']}
-MISSING = ['nope.lua', 'nope.p8', 'nope.p8.png', 'sub/nope.lua', 'l0.p8', 'dir.lua']     # dir.lua is a directory
+MISSING = ['nope.lua', 'nope.p8', 'nope.p8.png', 'sub/nope.lua', 'l0.p8', 'dir.lua',     # dir.lua is a directory
+           # a cart that exists in ONE of the two formats only: the other spelling names no file
+           'only8.p8.png', 'only8.p8.png:1', 'onlypng.p8', 'onlypng.p8:0', 'l0.lua.p8', 'only8.lua']
+ONE_FORMAT = {'only8.p8': b'o8a=1\n-->8\no8b=2\n', 'onlypng.p8.png': b'opa=1\n-->8\nopb=2\n'}
 
 
 CARTS_ROOT = 'home/.lexaloffle/pico-8/carts'
@@ -166,6 +169,16 @@ def sandbox():
             if back != text:
                 raise RuntimeError('fixture %s does not read back' % rel)
             content[rel] = (2, text)
+    # carts that exist in one format only (their sibling spelling is in MISSING)
+    fsobs.write_file(os.path.join(S, 'c', 'only8.p8'), p8_file(ONE_FORMAT['only8.p8']))
+    content['only8.p8'] = (1, p8_code(ONE_FORMAT['only8.p8']))
+    full = os.path.join(S, 'c', 'onlypng.p8.png')
+    text = PAD + ONE_FORMAT['onlypng.p8.png']
+    g = game.Game.make_empty_game(filename=full)
+    g.lua = lua.Lua.from_lines(io.BytesIO(text).readlines(), version=game.DEFAULT_VERSION)
+    with fsobs.quiet():
+        pfile.to_file(g, full)
+    content['onlypng.p8.png'] = (2, text)
     fsobs.write_file(os.path.join(S, 'c', 'bad.p8'), b'not a cart\n')
     os.makedirs(os.path.join(S, 'home'), exist_ok=True)
     os.makedirs(os.path.join(S, 'c', 'dir.lua'), exist_ok=True)
@@ -261,7 +274,7 @@ def re_strings(n):
 
 
 def all_names():
-    names = list(LUA_POOL)
+    names = list(LUA_POOL) + list(ONE_FORMAT)
     for n, dirs in CART_DIRS.items():
         for d in dirs:
             names += [d + n + '.p8', d + n + '.p8.png']
@@ -395,6 +408,10 @@ def corpus_cases():
     yield {'kind': 'load', 'host': ['a=1', '#include l0.lua', '#include sub/l0.lua', '#include t0.p8:1', 'b=2'],
            'names': ['l0.lua', 'sub/l0.lua', 't0.p8'], 'mode': 'abs', 'where': 'carts'}
     yield {'kind': 'load', 'host': ['#include l1.lua', '#include t1.p8.png'], 'names': ['l1.lua', 't1.p8.png'], 'mode': 'relc', 'where': 'carts'}
+    # a missing target whose sibling in the other cart format exists: still missing
+    yield {'kind': 'load', 'host': ['a=1', '#include only8.p8.png', 'b=2'], 'names': ['only8.p8.png'], 'mode': 'abs'}
+    yield {'kind': 'load', 'host': ['a=1', '#include onlypng.p8:1', 'b=2'], 'names': ['onlypng.p8'], 'mode': 'abs'}
+    yield {'kind': 'load', 'host': ['#include only8.p8:1', '#include onlypng.p8.png:0'], 'names': ['only8.p8', 'onlypng.p8.png'], 'mode': 'rel'}
     # loaded twice, targets edited in between; the cart's directory behind a symbolic link
     yield {'kind': 'load', 'host': ['a=1', '#include l0.lua', '#include t0.p8:1', 'b=2'], 'names': ['l0.lua', 't0.p8'],
            'mode': 'abs', 'where': 'tw', 'twice': 1}
